@@ -67,7 +67,44 @@ func (s *c19Script) Choose(_ hash.Events, options hash.Events) int {
 	return s.k % len(options)
 }
 
+// MC <n> <option ids (duplicates allowed, may be empty)> <nm> (<id> <metric>)*nm
+//
+//	-> calls ancestor.NewMetricStrategy(fn).Choose(nil, options) directly; observation: the index.
+func c19RunMC(in []string) []string {
+	p := 1
+	num := func() uint64 {
+		v, err := strconv.ParseUint(in[p], 10, 64)
+		p++
+		if err != nil {
+			panic("c19: bad number")
+		}
+		return v
+	}
+	n := int(num())
+	opts := make(hash.Events, 0, n)
+	for i := 0; i < n; i++ {
+		opts = append(opts, c19Hash(num()))
+	}
+	nm := int(num())
+	table := map[hash.Event]ancestor.Metric{}
+	for i := 0; i < nm; i++ {
+		id := num()
+		table[c19Hash(id)] = ancestor.Metric(num())
+	}
+	calls := 0
+	st := ancestor.NewMetricStrategy(func(h hash.Event) ancestor.Metric { calls++; return table[h] })
+	k := st.Choose(nil, opts)
+	vu.Stat("mc.len=" + vu.Itoa(n))
+	if calls != n {
+		return []string{vu.Itoa(k), "calls=" + vu.Itoa(calls)}
+	}
+	return []string{vu.Itoa(k)}
+}
+
 func c19Run(in []string) []string {
+	if in[0] == "MC" {
+		return c19RunMC(in)
+	}
 	p := 1
 	next := func() string { s := in[p]; p++; return s }
 	num := func() uint64 {
@@ -244,6 +281,35 @@ func init() {
 						}
 					}
 				}
+			}
+			// MetricStrategy.Choose called directly: duplicates, the empty list, all-zero and tied metrics
+			for i := 0; i < n/4+20; i++ {
+				pool := 1 + r.Intn(6)
+				ln := r.Intn(9)
+				if i < 3 {
+					ln = 0
+				}
+				t := []string{"MC", vu.Itoa(ln)}
+				for j := 0; j < ln; j++ {
+					t = append(t, vu.Itoa(r.Intn(pool)))
+				}
+				var table [][2]uint64
+				allZero := r.Intn(5) == 0
+				for id := 0; id < pool; id++ {
+					if r.Intn(4) == 0 {
+						continue
+					}
+					v := c19Metric(r)
+					if allZero {
+						v = 0
+					}
+					table = append(table, [2]uint64{uint64(id), v})
+				}
+				t = append(t, vu.Itoa(len(table)))
+				for _, kv := range table {
+					t = append(t, vu.U64(kv[0]), vu.U64(kv[1]))
+				}
+				emit(t...)
 			}
 			for i := 0; i < n; i++ {
 				pool := 2 + r.Intn(18)
